@@ -70,6 +70,7 @@ def handleMp4 (kv : KV) : String :=
     let spec : Option String :=
       if res == "panic" then some "panic"
       else if alt != res then some "result-depends-on-media-bytes"
+      else if (kv.get? "alt2").any (· != res) then some "result-depends-on-media-bytes-that-look-like-boxes"
       else if (kv.get? "pend").any (· != res) then some "result-depends-on-pending-schedule"
       else if (kv.get? "pendranges").any (· != rangesS) then some "bytes-read-depend-on-pending-schedule"
       else match mediaTouched boxes ranges with
